@@ -53,10 +53,12 @@ class Conclusion(SymbolicExpression[T], ABC):
 
     @property
     def _name_(self) -> str:
+        # the name is needed while the rule is written, when a raw value is not wrapped yet: show its type, like for a
+        # variable, instead of running its __str__
         value_str = (
             self.value._type_.__name__
             if isinstance(self.value, Variable)
-            else str(self.value)
+            else type(self.value).__name__
         )
         return f"{self.__class__.__name__}({self.var._var_._name_}, {value_str})"
 
